@@ -40,6 +40,25 @@ theorem build_is (s : Shape) (c : Err) (k : Kind) :
   funext e
   cases e <;> simp
 
+/-- an expression into which no argument error is written yields one only through its run-time cause -/
+theorem argFree_build (s : Shape) (hs : s.argFree = true) (c : Err) (hc : c.is .argument = false) :
+    (s.build c).is .argument = false := by
+  rw [build_is]
+  have hs' : ¬ (Elem.k Kind.argument) ∈ s := by
+    intro hm
+    have : s.contains (Elem.k Kind.argument) = true := List.contains_iff_mem.2 hm
+    simp only [Shape.argFree, this, Bool.not_true] at hs
+    cases hs
+  rw [List.any_eq_false]
+  intro e he
+  cases e with
+  | k k' =>
+    simp only [beq_iff_eq]
+    intro h
+    subst h
+    exact hs' he
+  | dyn => simp [hc]
+
 /-! ## extractors -/
 
 theorem bval_get_eq (v : BVal) :
@@ -225,7 +244,7 @@ theorem basicCheck_arg_free (user pass : String) (d : Option (List String)) (e :
 /-- An authenticator's error is an argument error exactly if it found no usable credentials of its kind. -/
 theorem execute_error_argument (w : World) (a : Authn) (r : Req) (e : Err) (hw : w.wf = true) (ha : a.wf = true)
     (h : a.execute w r = .error e) : e.is .argument = !usable w a r := by
-  obtain ⟨id, typ, af, ov⟩ := a
+  obtain ⟨id, typ, af, ov, key⟩ := a
   cases typ with
   | anonymous s => simp [Authn.execute] at h
   | unauthorized =>
@@ -253,7 +272,7 @@ theorem execute_error_argument (w : World) (a : Authn) (r : Req) (e : Err) (hw :
       | true =>
         simp only [hp, ↓reduceIte] at h
         simp only [Bool.not_true]
-        exact outcome_error_arg_free _ _ jwt_site_arg_free _ (jwtVerdict_wf w hw id v) e h
+        exact outcome_error_arg_free _ _ jwt_site_arg_free _ (jwtVerdict_wf w hw key v) e h
       | false =>
         simp only [hp, Bool.false_eq_true, ↓reduceIte, Except.error.injEq] at h
         subst h
@@ -268,7 +287,7 @@ theorem execute_error_argument (w : World) (a : Authn) (r : Req) (e : Err) (hw :
     rcases extract_cases ss r hne with ⟨v, hv, hc⟩ | ⟨e', he', hc, hk⟩
     · simp only [hv] at h
       simp only [hc, Option.isSome_some, Bool.not_true]
-      exact outcome_error_arg_free _ _ intro_site_arg_free _ (introVerdict_wf w hw id v) e h
+      exact outcome_error_arg_free _ _ intro_site_arg_free _ (introVerdict_wf w hw key v) e h
     · simp only [he', Except.error.injEq] at h
       subst h
       simp [hc, IntroSite.shape, build_is, hk]
@@ -279,7 +298,7 @@ theorem execute_error_argument (w : World) (a : Authn) (r : Req) (e : Err) (hw :
     rcases extract_cases ss r hne with ⟨v, hv, hc⟩ | ⟨e', he', hc, hk⟩
     · simp only [hv] at h
       simp only [hc, Option.isSome_some, Bool.not_true]
-      exact outcome_error_arg_free _ _ gen_site_arg_free _ (genVerdict_wf w hw id v) e h
+      exact outcome_error_arg_free _ _ gen_site_arg_free _ (genVerdict_wf w hw key v) e h
     · simp only [he', Except.error.injEq] at h
       subst h
       simp [hc, GenSite.shape, build_is, hk]
@@ -287,7 +306,7 @@ theorem execute_error_argument (w : World) (a : Authn) (r : Req) (e : Err) (hw :
 /-- An authenticator only succeeds on usable credentials. -/
 theorem execute_ok_usable (w : World) (a : Authn) (r : Req) (s : String) (ha : a.wf = true)
     (h : a.execute w r = .ok s) : usable w a r = true := by
-  obtain ⟨id, typ, af, ov⟩ := a
+  obtain ⟨id, typ, af, ov, key⟩ := a
   cases typ with
   | anonymous s => simp [usable]
   | unauthorized => simp [usable]
